@@ -344,6 +344,63 @@ fn rsa_leading_zero_class(acc: &mut Acc, meta: &MetadataWrapper) -> serde_json::
     info
 }
 
+/// Signers that cannot sign: a private key loaded under a scheme its material does not fit (the
+/// library accepts the declaration and only `sign` fails). Whatever construction is asked for k
+/// signers either fails or yields a block that, written and read back, verifies for all k.
+fn unusable_signers(acc: &mut Acc, meta: &MetadataWrapper) -> usize {
+    use in_toto::crypto::{PrivateKey, SignatureScheme};
+    let ed = keys::get("ed1");
+    let mut odd: Vec<(&'static str, PrivateKey)> = vec![];
+    for (name, der, scheme) in [
+        ("RSA key declared ecdsa-sha2-nistp256", keys::RSA_PK8[0], SignatureScheme::EcdsaP256Sha256),
+        ("P-256 key declared rsassa-pss-sha256", keys::EC_PK8[0], SignatureScheme::RsaSsaPssSha256),
+        ("P-256 key declared rsassa-pss-sha512", keys::EC_PK8[0], SignatureScheme::RsaSsaPssSha512),
+        ("RSA key declared with an unknown scheme", keys::RSA_PK8[0], SignatureScheme::Unknown("rsa-pkcs1v15-sha256".into())),
+        ("P-256 key declared with an unknown scheme", keys::EC_PK8[0], SignatureScheme::Unknown("x".into())),
+    ] {
+        if let Guard::Done(Ok(k)) = guard(|| PrivateKey::from_pkcs8(der, scheme.clone())) {
+            // only keys that really cannot sign belong here
+            if !matches!(guard(|| k.sign(b"probe")), Guard::Done(Ok(_))) {
+                odd.push((name, k));
+            }
+        }
+    }
+    for (oname, ok) in &odd {
+        for (lname, ks) in [("alone", vec![ok]), ("after a working signer", vec![&ed.private, ok]), ("before a working signer", vec![ok, &ed.private]), ("between two working signers", vec![&ed.private, ok, &keys::get("ed2").private])] {
+            for how in ["Metablock::new", "builder", "from_raw_metadata(json)", "LinkMetadataBuilder::signed"] {
+                if how == "LinkMetadataBuilder::signed" && ks.len() != 1 {
+                    continue;
+                }
+                acc.evaluations += 1;
+                acc.nontrivial += 1;
+                let witness = || json!({"kind": "unusable-signer", "signer": oname, "position": lname, "construction": how});
+                let r = guard(|| -> in_toto::Result<Metablock> {
+                    match how {
+                        "Metablock::new" => Metablock::new(meta.clone(), &ks),
+                        "builder" => Ok(MetablockBuilder::from_metadata(meta.clone().into_trait()).sign(&ks)?.build()),
+                        "LinkMetadataBuilder::signed" => via_signed(meta, ks[0]).unwrap_or_else(|| Metablock::new(meta.clone(), &ks)),
+                        _ => Ok(MetablockBuilder::from_raw_metadata(&serde_json::to_vec(meta)?)?.sign(&ks)?.build()),
+                    }
+                });
+                match r {
+                    Guard::Panicked(l, m) => acc.violation(&format!("panic:{l}"), &m, witness),
+                    Guard::Done(Err(_)) => acc.outcome("unusable-signer:construction-fails"),
+                    Guard::Done(Ok(mb)) => {
+                        let pubs: Vec<&PublicKey> = ks.iter().map(|k| k.public()).collect();
+                        let back = serde_json::to_vec(&mb).ok().and_then(|b| serde_json::from_slice::<Metablock>(&b).ok());
+                        let verifies = back.as_ref().map(|b| matches!(guard(|| b.verify(ks.len() as u32, pubs.clone()).is_ok()), Guard::Done(true))).unwrap_or(false);
+                        acc.outcome(if verifies { "unusable-signer:block-verifies" } else { "unusable-signer:block-lacks-a-signer" });
+                        if !verifies {
+                            acc.violation(&format!("signer-silently-left-out:{how}"), &format!("{how} for {} signers ({oname}, {lname}) returned a block with {} signature(s) that does not verify for all of them after a round trip", ks.len(), mb.signatures.len()), witness);
+                        }
+                    }
+                }
+            }
+        }
+    }
+    odd.len()
+}
+
 pub fn run(tier: Tier) -> i32 {
     let mut c = Check::new("C09", "exploration", tier);
     let mut acc = Acc::new();
@@ -491,10 +548,12 @@ pub fn run(tier: Tier) -> i32 {
         let b = MetablockBuilder::from_metadata(four[0].1.clone().into_trait()).sign(&[&keys::get("ed1").private]).unwrap().sign(&[&keys::get("ed2").private]).unwrap().build();
         c.extra.insert("observation_builder_sign_twice_keeps_signatures".into(), json!(b.signatures.len()));
     }
+    let n_odd = unusable_signers(&mut acc, &four[0].1);
+    c.extra.insert("signers_that_cannot_sign".into(), json!(n_odd));
     crate::envprobe::judge(&mut acc, "C09:", &mut c.extra);
     c.acc = acc;
     c.rule = format!(
-        "(1) {} documents (every string field of link and layout x wide strings <= {} over 17 characters incl. controls/non-BMP and critical strings <= 2) signed with Ed25519 via Metablock::new, the builder, the plain constructors and (links) LinkMetadataBuilder::signed, written 4 (2) ways, read back, verified; (2) every {}th document with each of the 5 other key kinds; (3) all 40 ordered signer sequences of length 1..3 over 4 key types x 6 constructions x 4 outputs x 4 documents; (6) links with 70 KB / 1.3 MB (5 MB) of captured output and with 3000 (9000) products; every written block is read back by serde_json, Json::from_slice, Json::from_reader and JsonPretty::from_reader alike; (5) in_toto_run on a two-file tree x 6 key kinds x 3 commands; (4) per key kind: every other key of the type, every scheme re-declaration, every single bit of the signature. distinct_nontrivial = documents x signer settings + negative cases",
+        "(1) {} documents (every string field of link and layout x wide strings <= {} over 17 characters incl. controls/non-BMP and critical strings <= 2) signed with Ed25519 via Metablock::new, the builder, the plain constructors and (links) LinkMetadataBuilder::signed, written 4 (2) ways, read back, verified; (2) every {}th document with each of the 5 other key kinds; (3) all 40 ordered signer sequences of length 1..3 over 4 key types x 6 constructions x 4 outputs x 4 documents; (6) links with 70 KB / 1.3 MB (5 MB) of captured output and with 3000 (9000) products; every written block is read back by serde_json, Json::from_slice, Json::from_reader and JsonPretty::from_reader alike; (7) signers that cannot sign (an RSA key declared ECDSA, a P-256 key declared RSA-PSS, unknown schemes) alone / before / after / between working signers x 4 constructions: the construction fails or the block verifies for every signer; (5) in_toto_run on a two-file tree x 6 key kinds x 3 commands; (4) per key kind: every other key of the type, every scheme re-declaration, every single bit of the signature. distinct_nontrivial = documents x signer settings + negative cases",
         docs.len(),
         if tier.thorough() { 2 } else { 1 },
         if tier.thorough() { 3 } else { 11 }
@@ -507,6 +566,12 @@ pub fn run(tier: Tier) -> i32 {
 }
 
 pub fn replay(case: &Value) -> Value {
+    if case["kind"] == "unusable-signer" {
+        let mut acc = Acc::new();
+        unusable_signers(&mut acc, &c11::link_with("name", "replay"));
+        let hit = acc.violations.values().find(|v| v.witness["signer"] == case["signer"] && v.witness["construction"] == case["construction"] && v.witness["position"] == case["position"]).map(|v| v.key.clone());
+        return json!({"violation": hit.or_else(|| acc.violations.keys().next().cloned())});
+    }
     let mut acc = Acc::new();
     match case["kind"].as_str() {
         Some("roundtrip") => {
